@@ -24,6 +24,13 @@ src/Simulation/SimuBoolean.cpp src/Simulation/SimuSpherical.cpp src/Simulation/S
 STAGES = ["_check", "_preprocess", "_run", "_postprocess"]
 REGISTRARS = {"ACalcDbToDb::_addVariableDb": 1, "ACalcDbVarCreator::_addVariableDb": 0}   # index of the status argument
 CLEANERS = {"ACalcDbToDb::_cleanVariableDb", "ACalcDbVarCreator::_cleanVariableDb"}
+# R19.2: direct creations confirmed harmless by reading/replay; one named site per row, with the reason
+R192_ACCEPTED = {
+    ("CalcAnamTransform::_preprocess", "addColumnsByConstant"):
+        "the outputs are created in _preprocess and no later stage of CalcAnamTransform can fail (every branch of _run "
+        "ends in success, _postprocess returns true; replayed 2026-10-02, replays/C19/R19.2_CalcAnamTransform.cpp), so the "
+        "columns cannot outlive a failed calculation; any other class creating columns directly is still reported",
+}
 DB_ACCESSORS = {"getDbin", "getDbout", "getDb", "getGridin", "getGridout"}
 DB_FIELDS = {"_dbin", "_dbout", "_db"}
 
@@ -174,6 +181,11 @@ def r19_2(prog, chk, classes):
             # accepted: the created identifiers are handed to the registry afterwards
             g = CFG(f) if f.cfg else None
             registered = any(x["k"] == "MCall" and (x.get("callee") or "").endswith("::_storeInVariableList") for x in f.walk())
+            acc = (f.name, c["callee"].split("::")[-1])
+            if not registered and acc in R192_ACCEPTED:
+                registered = True
+                if ("R19.2 accepted instance %s: %s" % (acc[0], R192_ACCEPTED[acc])) not in chk.assumptions:
+                    chk.assumptions.append("R19.2 accepted instance %s: %s" % (acc[0], R192_ACCEPTED[acc]))
             chk.ob("R19.2", "%s: %s on a calculator data base is registered for roll-back" % (f.name, show(c)[:60]), f.loc(c),
                    registered,
                    detail=None if registered else "the column is created directly on the data base, not through _addVariableDb(): "
